@@ -5,6 +5,7 @@ import Larking.Gen.Grpc
 import Larking.Model.Timeout
 import Larking.Model.Metadata
 import Larking.Model.StreamCodec
+import Larking.Model.Selector
 namespace Larking.Driver
 open Larking.Status
 
@@ -97,7 +98,17 @@ def handleC17 : List String → Option String
       | none => "err"
   | _ => none
 
-def handlers : List (List String → Option String) := [handleC05, handleC14C15, handleC17]
+/-- selector <sel>|<sel>|… <name> -/
+def handleC19 : List String → Option String
+  | ["selector", sels, name] =>
+      let ss := if sels.isEmpty then [] else (sels.splitOn "|").map (·.splitOn ".")
+      match Selector.setRules ss with
+      | .ok t => some (",".intercalate ((t.get (name.splitOn ".")).map toString))
+      | .panic _ => some "panic"
+      | .err k => some ("err " ++ k)
+  | _ => none
+
+def handlers : List (List String → Option String) := [handleC05, handleC14C15, handleC17, handleC19]
 
 def handle (args : List String) : String :=
   match handlers.findSome? (fun h => h args) with
